@@ -304,6 +304,27 @@ def explore(ctx, res, n_per_method):
     run_cases(cases, classes)
     outs = ctx.model([model_calls(c) for c in cases])
     specs = ctx.model([[sym('meta_spec_calls'), wire.sx_wire(c['q'])] for c in cases])
+    # end to end: the bytes of the line -> adapter calls and the bytes queued (Model/EndToEnd.v)
+    e2e = ctx.model([[sym('answer_meta'), c['line'].encode('ascii'), model_calls(c)[3]] for c in cases])
+    for case, m in zip(cases, e2e):
+        res.evaluations += 1
+        res.count('handlers:end-to-end')
+        im = case['impl']
+        if im['crashed'] or not isinstance(m, list) or len(m) != 2 or m[1] == b'unmodelled':
+            continue
+        msgs, nh = im['msgs'], im['handler']
+        if len(msgs) == 1 and nh == 0 and isinstance(msgs[0], str):
+            got = [sym('wire'), (msgs[0] + '\r\n').encode('utf-8', 'surrogatepass')]
+        elif not msgs and nh == 1:
+            got = sym('handler')
+        elif not msgs and nh == 0:
+            got = sym('none')
+        else:
+            got = [sym('odd'), A(len(msgs)), A(nh)]
+        impl = [c06.norm_calls(im['calls']), got]
+        if m != impl:
+            res.disagreements.append({'case': case_json(case), 'model': sx.dumps(m)[:700], 'impl': sx.dumps(impl)[:700],
+                                      'relation': 'EndToEnd.answer_meta (line bytes, outcomes) = adapter calls and bytes queued by the real server (+ CRLF of the writer)'})
     for case, m, sp in zip(cases, outs, specs):
         res.evaluations += 1
         im = case['impl']
